@@ -163,9 +163,21 @@ def entries() -> list[Entry]:
         Entry("JSONSerializer(lines,ensure_ascii=False)", lambda: JSONSerializer(encoder_config=JSONEncoderConfig(ensure_ascii=False), encoding="utf-8"), _json_value),
         Entry("JSONSerializer(raw)", lambda: JSONSerializer(use_lines=False), _json_value),
         Entry("JSONSerializer(raw,utf-8)", lambda: JSONSerializer(use_lines=False, encoder_config=JSONEncoderConfig(ensure_ascii=False), encoding="utf-8"), _json_value),
-        Entry("StringLineSerializer(LF)", lambda: StringLineSerializer("LF"), gen_line, buffered=True),
-        Entry("StringLineSerializer(CRLF,keep_end)", lambda: StringLineSerializer("CRLF", keep_end=True), lambda rng: gen_line(rng) + "\r\n", buffered=True),
-        Entry("StringLineSerializer(CR,utf-8)", lambda: StringLineSerializer("CR", encoding="utf-8"), lambda rng: rng.choice(["hé", "€€", "z"]) + _text(rng, 0, 4), buffered=True),
+        # lines may contain (and end with) the characters of the *other* newline conventions: they are ordinary payload
+        Entry("StringLineSerializer(LF)", lambda: StringLineSerializer("LF"), lambda rng: gen_line(rng) + rng.choice(["", "", "\r", "\r\r", "\rx"]), buffered=True),
+        Entry(
+            "StringLineSerializer(CRLF,keep_end)",
+            lambda: StringLineSerializer("CRLF", keep_end=True),
+            lambda rng: gen_line(rng) + rng.choice(["", "", "\n", "\r", "\n\r", "\rx\n"]) + "\r\n",
+            buffered=True,
+        ),
+        Entry("StringLineSerializer(CRLF)", lambda: StringLineSerializer("CRLF"), lambda rng: gen_line(rng) + rng.choice(["", "\n", "\r", "\n\n"]), buffered=True),
+        Entry(
+            "StringLineSerializer(CR,utf-8)",
+            lambda: StringLineSerializer("CR", encoding="utf-8"),
+            lambda rng: rng.choice(["hé", "€€", "z"]) + _text(rng, 0, 4) + rng.choice(["", "\n", "\n\n"]),
+            buffered=True,
+        ),
         Entry("StructSerializer(>iH3s)", lambda: StructSerializer(">iH3s"), gen_struct, buffered=True),
         Entry(
             "NamedTupleStructSerializer",
